@@ -231,7 +231,8 @@ template<class Src, class Dest, class Tag, How how, int SND = 0>
             if constexpr (how == VIA_SN && !cv::is_builtin_int<RepS>) {
                 // elastic source of SD digits divided by 2^s is given SD - s digits; rounding can carry into one more
                 constexpr int SD = cnl::digits_v<RepS>;
-                if (de > se && de - se < SD && want.abs() >= Big::pow2(SD - (de - se))) labels += "/rounding_carries_past_source_digits_minus_shift";
+                if (de - se > SD) labels += "/shift_exceeds_source_digits";  // the intermediate elastic type has a negative digit count
+                else if (de > se && (de - se >= SD ? !want.is_zero() : want.abs() >= Big::pow2(SD - (de - se)))) labels += "/rounding_carries_past_source_digits_minus_shift";
             }
             if (!o.ok()) {
                 vf::outcome(o.str());
